@@ -331,8 +331,52 @@ let fig_check line =
   | Some (sa, it) -> verdict (c03_fig_sb (n_of_string (get t "s" "1")) (n_of_string (get t "m" "0")) sa it) "C03:iters-not-samples-times-size"
   | None -> verdict false ("outcome:" ^ impl)
 
+(* C04, time origin vs overhead calibration: history, t0 and the calibration time come from the event log *)
+let cal_parts histpart =
+  let h = kv histpart in
+  (n_of_string (get h "t0" "0"), n_of_string (get h "cal" "0"))
+
+let c04cal_model line =
+  let (case, histpart) = split_bar line in
+  let t = kv case in
+  let cfg = e2e_cfg t in
+  let ts = get t "threads" "1" in
+  let (t0, cal) = cal_parts histpart in
+  match parse_case "" histpart with
+  | Panic p -> "panic " ^ string_of_panic p
+  | Ok p ->
+    match bench_loop_cal cfg t0 cal p.hist with
+    | Panic e -> "t=" ^ ts ^ " panic " ^ string_of_panic e
+    | Ok out ->
+      match seen_of_outcome (nat_of_int (int_of_string ts)) out with
+      | Panic e -> "t=" ^ ts ^ " panic " ^ string_of_panic e
+      | Ok s ->
+        if not (out_done out) then "t=" ^ ts ^ " starved after " ^ string_of_int (List.length s.o_sizes) ^ " rounds"
+        else Printf.sprintf "t=%s samples=%s iters=%s calls=%s sizes=%s" ts (string_of_n s.o_stat_samples)
+            (string_of_n s.o_stat_iters) (list_s string_of_n s.o_calls) (list_s string_of_n s.o_sizes)
+
+let c04cal_check line =
+  let (case, impl) = split_sb line in
+  let (obs, histpart) = split_bar impl in
+  let t = kv case in
+  let cfg = e2e_cfg t in
+  let r = kv obs in
+  let (t0, cal) = cal_parts histpart in
+  match parse_case "" histpart with
+  | Panic p -> verdict false ("history:" ^ string_of_panic p)
+  | Ok p ->
+    match (try Some (list_n (get r "sizes" "?")) with _ -> None) with
+    | Some sizes when get r "badlog" "0" = "0" && get r "t" "?" = get t "threads" "1" ->
+      let seen = { o_done = true; o_sizes = sizes; o_calls = []; o_final_size = N0; o_samples = []; o_alloc_keys = [];
+                   o_counts = qconst []; o_stat_samples = N0; o_stat_iters = N0 } in
+      verdict (c04_cal_sb cfg t0 cal p.hist seen)
+        ("C04:rounds-not-the-least-k-with-elapsed-measured-from-the-first-sample(calibration=" ^ string_of_n cal ^ "ps)")
+    | _ -> verdict false ("outcome:" ^ (if String.length obs > 80 then String.sub obs 0 80 else obs))
+
 let dispatch mode line =
   match mode with
+  | "c04cal" -> c04cal_model line
+  | "c04cal.sb" -> c04cal_check line
   | "c03fig" -> fig_model line
   | "c03fig.sb" -> fig_check line
   | "c04ev" -> c19cli_model line
